@@ -180,7 +180,22 @@ func genEng(cliTier bool) func(t *rapid.T) EngCase {
 				c.Patterns = []Pattern{{{Glob: rapid.SampledFrom(tnames).Draw(t, "extable")}}}
 				c.Skip = []string{rapid.SampledFrom([]string{"drop_table", "drop_index", "add_table"}).Draw(t, "skip")}
 			}
+			// make sure the desired state asks for a change of the skipped kind (otherwise the policy has nothing to stop)
+			if len(c.Skip) > 0 {
+				want := map[string]string{"drop_table": "drop-table", "drop_index": "drop-index", "add_table": "add-table", "drop_column": "drop-column"}[c.Skip[0]]
+				oo := o
+				oo.Kinds = []string{want}
+				for try := 0; try < 3; try++ {
+					if k := model.Edit(t, &c.B, oo, nil); k != "" {
+						c.Edits = append(c.Edits, k)
+						break
+					}
+				}
+			}
 			c.Source = rapid.IntRange(0, 3).Draw(t, "source")
+			if len(c.Skip) > 0 {
+				c.Layout = rapid.IntRange(0, 2).Draw(t, "layout")
+			}
 			return c
 		}
 		for n := rapid.IntRange(1, 3).Draw(t, "npat"); n > 0; n-- {
@@ -306,6 +321,9 @@ func TestCheck(t *testing.T) {
 		if c.CLI {
 			tier = "cli"
 			col.Class("cli/desired-state-source=" + []string{"database-url", "hcl-file", "hcl_schema-data-source", "sql-file"}[c.Source])
+			if len(c.Skip) > 0 {
+				col.Class("cli/skip-policy-layout=" + []string{"env-block", "project-block", "project-block-extended-by-env"}[c.Layout])
+			}
 		}
 		col.Class(tier)
 		if out.Excluded > 0 && out.Kept > 0 || len(c.Skip) > 0 {
@@ -313,7 +331,7 @@ func TestCheck(t *testing.T) {
 			for _, p := range c.Patterns {
 				ps = append(ps, p.String())
 			}
-			col.NonTrivial(fmt.Sprintf("%s|%s|%v|%v|%d", tier, strings.Join(ps, " "), c.Skip, c.Edits, c.Source))
+			col.NonTrivial(fmt.Sprintf("%s|%s|%v|%v|%d|%d", tier, strings.Join(ps, " "), c.Skip, c.Edits, c.Source, c.Layout))
 		}
 		col.Sample(tier, c)
 		return err
